@@ -9,6 +9,8 @@ Decided:
   C07.count   I/O adaptors (Counter, CrcReader, CrcWriter, LimitedReader) account the bytes actually transferred
   C07.endian  LittleEndian / BigEndian map to to_le_bytes / to_be_bytes and from_le_bytes / from_be_bytes;
               byte width k <-> i{8k} converters in Frame::to_buf / fill_from_buf
+  C07.cast    narrowing `as` casts in decode / audio / byteorder / crc are shown lossless or audited (castlib)
+  (C07.eof also requires FlacChannelReader::consume to accumulate: consumed = consumed + amt)
 Not decided: exactly-once delivery under all call sequences (value-level); equality of byte and sample outputs.
 """
 from rules.common import *
